@@ -124,8 +124,9 @@ def benign_variants(prop):
         # a refactoring written for another property is replayed here too when it once alarmed this check
         if not os.path.basename(d).startswith(prop + "-") and prop not in m.get("also_check", []):
             continue
-        if m.get("expected_alarm"):
-            continue  # documented limitation: see meta.json
+        ea = m.get("expected_alarm")
+        if ea and (not isinstance(ea, dict) or prop in ea):
+            continue  # documented limitation (for every check, or for the checks named): see meta.json and DESIGN.md §9.7
         out.append({"name": "benign-" + os.path.basename(d), "kind": "benign", "patch": os.path.relpath(os.path.join(d, "patch.diff"), VERIF), "why": m.get("why_equivalent", "")[:200]})
     return out
 
